@@ -58,6 +58,8 @@ type Scenario struct {
 	// (one attempt = one connection: keep-alives are off). Beyond the list: Rest[u].
 	Plan [][]string `json:"plan"`
 	Rest []string   `json:"rest"`
+	// SplitBodies: healthy answers arrive in two parts (see simprom.Fault.SplitBody)
+	SplitBodies bool `json:"split_bodies,omitempty"`
 }
 
 // the property's nine modes first, then the extra ones
@@ -124,6 +126,7 @@ func draw(rt *rapid.T) Scenario {
 		}
 		sc.Callers = append(sc.Callers, ops)
 	}
+	sc.SplitBodies = rapid.IntRange(0, 2).Draw(rt, "split") == 0
 	faultFree := rapid.IntRange(0, 9).Draw(rt, "faultfree") < 2
 	for u := 0; u < sc.Upstreams; u++ {
 		plan := []string{}
@@ -216,7 +219,7 @@ func run(t *testing.T, sc Scenario, record bool) *detsim.Outcome {
 		if len(uris) > 1 {
 			fmt.Fprintf(&hcl, "  failover = [%s]\n", `"`+strings.Join(uris[1:], `", "`)+`"`)
 		}
-		fmt.Fprintf(&hcl, "  timeout = \"%ds\"\n  required = %v\n  concurrency = 4\n  rateLimit = 1000\n}\n", sc.TimeoutS, sc.Required)
+		fmt.Fprintf(&hcl, "  timeout = \"%ds\"\n  required = %v\n  concurrency = 4\n  rateLimit = 1000000000\n}\n", sc.TimeoutS, sc.Required)
 		cfgPath := filepath.Join(dir, ".pint.hcl")
 		if err := os.WriteFile(cfgPath, []byte(hcl.String()), 0o644); err != nil {
 			panic(err)
@@ -239,7 +242,7 @@ func run(t *testing.T, sc Scenario, record bool) *detsim.Outcome {
 					// only query answers have a result type; elsewhere this body is a valid empty success
 					mode = simprom.ModeGarbage
 				}
-				return simprom.Fault{Mode: mode, DelayNs: int64(1000 + req.ID)}
+				return simprom.Fault{Mode: mode, DelayNs: int64(1000 + req.ID), SplitBody: sc.SplitBodies}
 			}
 			idx := i
 			srv.StartCtx(nw, nil, func(k int, op any) (simnet.DialAction, any) {
@@ -372,6 +375,19 @@ func run(t *testing.T, sc Scenario, record bool) *detsim.Outcome {
 	} else if leak != "" {
 		setViol("goroutine-leak", leak)
 	}
+	if record {
+		for _, a := range attempts {
+			fmt.Printf("DEBUG attempt op=%d up=%d mode=%s seq=%d\n", a.Op, a.Up, a.Mode, a.Seq)
+		}
+		for up := range logs {
+			for _, r := range logs[up] {
+				fmt.Printf("DEBUG server up=%d #%d %s outcome=%s arrive=%d end=%d\n", up, r.ID, r.Identity, r.Outcome, r.ArriveSeq, r.EndSeq)
+			}
+		}
+		for _, r := range results {
+			fmt.Printf("DEBUG result op=%d kind=%s answers=%v err=%v\n", r.ID, kindNames[r.Op.Kind], r.Answers, r.Err)
+		}
+	}
 	judge(sc, attempts, results, logs, out, setViol)
 	return out
 }
@@ -466,6 +482,16 @@ func judge(sc Scenario, attempts []attempt, results []result, logs [][]simprom.R
 		}
 	}
 
+	for up := range logs {
+		for i := range logs[up] {
+			for j := i + 1; j < len(logs[up]); j++ {
+				a, b := logs[up][i], logs[up][j]
+				if a.EndSeq > 0 && b.ArriveSeq < a.EndSeq && a.ArriveSeq < b.ArriveSeq {
+					out.Probes["overlapping_requests"]++
+				}
+			}
+		}
+	}
 	digest := fnv.New64a()
 	uri := func(u int) string { return fmt.Sprintf("http://prom%d:9090", u) }
 	for _, r := range results {
